@@ -122,7 +122,7 @@ func TestC17Real(t *testing.T) {
 			cl := c17Client{Transport: rapid.SampledFrom([]string{"inproc", "tcp", "ws"}).Draw(rt, "transport")}
 			k := rapid.IntRange(1, 15).Draw(rt, "nops")
 			for j := 0; j < k; j++ {
-				cl.Ops = append(cl.Ops, rapid.SampledFrom([]string{"m", "m", "q", "n"}).Draw(rt, "op"))
+				cl.Ops = append(cl.Ops, rapid.SampledFrom([]string{"m", "m", "q", "n", "M", "Q", "N"}).Draw(rt, "op"))
 			}
 			c.Clients = append(c.Clients, cl)
 		}
